@@ -199,7 +199,11 @@ func (b *Roles) GetPassCode(name string) (*rolesapi.PassCode, error) {
 func (b *Roles) SetupWithCode(
 	name string, id *identity.Identity, code string, t time.Time,
 ) error {
-	return b.mutate(name, func(r *role) error {
+	// A failed attempt must still be recorded: returning the check's error
+	// from inside the mutate function would discard the incremented counter.
+	var checkErr error
+	if err := b.mutate(name, func(r *role) error {
+		checkErr = nil
 		if r.Role.Disabled {
 			return errcode.InvalidArgf("role is disabled")
 		}
@@ -207,12 +211,19 @@ func (b *Roles) SetupWithCode(
 			r.PassCode.Tried++
 		}
 		if err := checkPassCode(code, r.PassCode, t); err != nil {
-			return err
+			if r.PassCode == nil {
+				return err // nothing to record
+			}
+			checkErr = err
+			return nil
 		}
 		r.Identity = id
 		r.PassCode.Consumed = true
 		return nil
-	})
+	}); err != nil {
+		return err
+	}
+	return checkErr
 }
 
 // VerifySelfToken checks the self-signed JWT token.
